@@ -132,6 +132,7 @@ theorem integerPhase_stuck (b : Bytes) (ip : IntPart) (x : Nat) (hx : b.slc[b.in
   have hpp : ∀ r, prefixPhase c b = .ok r → r = (false, b) := by
     intro r hr
     unfold prefixPhase at hr
+    simp only [prefixRepair, Bool.false_eq_true, if_false] at hr
     split at hr
     · simp only [bind, Except.bind, readIfValueCased] at hr
       cases hp : peek c .integer b with
